@@ -483,6 +483,11 @@ def call_builtin(self, name, args, kwargs, st, node):
         return
     if name == "len":
         x = a[0]
+        if isinstance(x, Unknown) and self.lenient:
+            n_ = fresh("unk_len", z3.IntSort())
+            st.assume(n_ >= 0)
+            yield int_val(n_), st
+            return
         if isinstance(x, Val) and isinstance(x.t, Opt) and isinstance(x.t.elt, (Seq, List, Dict, Set)):
             x = self.coerce(x, x.t.elt, st)          # len(None) would be a TypeError: non-None is an obligation
         if isinstance(x, PyTuple):
